@@ -651,6 +651,8 @@ const (
 	VbExitEarly           // exit before the first next
 	VbInitError           // report init/error, then exit
 	VbDoubleRespond       // post the response twice (second must be refused)
+	VbCaseVariantThenOK   // post a response for the id in upper case (must be refused), then the right one
+	VbIllegalThenOK       // make protocol-illegal calls (init/error after next, error for a stale id), then respond
 )
 
 func VerifNewWorld(iop interop.Server, nExt int, subs []string) *VerifWorld {
@@ -677,6 +679,9 @@ func VerifNewWorld(iop interop.Server, nExt int, subs []string) *VerifWorld {
 }
 
 func (w *verifWorld) RapidCtx() interop.RapidContext { return w.ctx }
+
+// ShuttingDown reports whether a reset/shutdown of the sandbox is in progress (ghost read).
+func (w *verifWorld) ShuttingDown() bool { return w.ctx.shutdownContext.shuttingDown }
 func (w *verifWorld) StateGetter() interop.InternalStateGetter {
 	return w.rs.GetInternalStateDescriptor(w.appCtx)
 }
@@ -722,7 +727,7 @@ func (w *verifWorld) plannedRuntime() func(p *verifProc) {
 			w.sup.exit(p, 1, 0)
 			return
 		}
-		for i := 0; ; i++ {
+		for i := 0; i < 6; i++ {
 			if p.dead {
 				return
 			}
@@ -741,12 +746,16 @@ func (w *verifWorld) plannedRuntime() func(p *verifProc) {
 			resp := verifNondetBytes("runtime payload")
 			verifAssume(len(resp) <= 6*1024*1024+100)
 			w.rtResponses = append(w.rtResponses, string(resp))
-			st := func(r *verifRec) { w.rtStatuses = append(w.rtStatuses, fmt.Sprint(r.status)) }
+			st := func(r *verifRec) int { w.rtStatuses = append(w.rtStatuses, fmt.Sprint(r.status)); return r.status }
 			switch b {
 			case VbRespond:
-				st(w.runtimeResponse(who, id, resp))
+				if st(w.runtimeResponse(who, id, resp)) != 202 {
+					return // a runtime whose response is refused gives up
+				}
 			case VbError:
-				st(w.runtimeError(who, id, "Function.Oops", resp))
+				if st(w.runtimeError(who, id, "Function.Oops", resp)) != 202 {
+					return
+				}
 			case VbStall:
 				verifBlockForever()
 				return
@@ -763,6 +772,13 @@ func (w *verifWorld) plannedRuntime() func(p *verifProc) {
 			case VbDoubleRespond:
 				st(w.runtimeResponse(who, id, resp))
 				st(w.runtimeResponse(who, id, []byte("second-payload")))
+			case VbCaseVariantThenOK:
+				st(w.runtimeResponse(who, strings.ToUpper(id), []byte("variant-payload")))
+				st(w.runtimeResponse(who, id, resp))
+			case VbIllegalThenOK:
+				st(w.runtimeInitError(who, "Runtime.Late", []byte(`{"errorMessage":"late"}`)))
+				st(w.runtimeError(who, "stale-"+id, "Function.Stale", []byte("stale-error")))
+				st(w.runtimeResponse(who, id, resp))
 			}
 		}
 	}
